@@ -87,9 +87,9 @@ class Lib:
         for k in range(rng.randrange(1, 4)):
             name = 'K%d' % k
             bases = []
-            if names and rng.random() < 0.6:
+            if names and rng.random() < 0.75:
                 for bn in rng.sample(names, min(len(names), rng.choice([1, 1, 2]))):
-                    bases.append({'name': bn, 'virtual': rng.random() < 0.3})
+                    bases.append({'name': bn, 'virtual': rng.random() < 0.25})
                 # a direct base that is also an indirect base is ambiguous (the conversion to it is ill-formed): keep one
                 anc = {x['name']: self.ancestors(x['name']) for x in bases}
                 bases = [x for x in bases if not any(x['name'] in anc[y['name']] for y in bases if y is not x)]
@@ -97,13 +97,17 @@ class Lib:
             known = names + [name]
             used_names = set()
             for _ in range(rng.randrange(1, 6)):
-                kind = rng.choice(['method', 'method', 'method', 'static', 'const', 'virtual', 'field', 'overload', 'operator'])
+                kind = rng.choice(['method', 'method', 'static', 'const', 'virtual', 'virtual', 'field', 'overload', 'operator'])
                 if kind == 'field':
                     sk = rng.choice(list(SCALAR) + (['string'] if self.use_string else []))
                     c['fields'].append({'name': self.fresh('f'), 'kind': sk, 'src': SCALAR[sk][0] if sk in SCALAR else 'std::string'})
                 elif kind == 'overload':
                     nm = self.fresh('ov')
                     shapes = [[('i32', None)], [('f64', None)], [('i32', None), ('i32', None)], [], [('objcref', name)], [('cstr', None)], [('bool', None), ('f32', None)]]
+                    if self.use_string:
+                        # std::string next to a sibling that a char pointer converts to
+                        shapes += [[('stringcref', None)], [('bool', None)], [('stringcref', None), ('i32', None)], [('bool', None), ('i32', None)]]
+                        shapes = [sh for sh in shapes if sh != [('cstr', None)]]        # (char const * and std::string are the same wrapper type)
                     for sh in rng.sample(shapes, rng.choice([2, 3])):
                         ps = []
                         for i, (kk, cc) in enumerate(sh):
@@ -111,6 +115,8 @@ class Lib:
                                 ps.append({'kind': kk, 'src': SCALAR[kk][0], 'db': SCALAR[kk][1], 'name': 'a%d' % i, 'default': None})
                             elif kk == 'cstr':
                                 ps.append({'kind': 'cstr', 'src': 'const char *', 'db': 'char const *', 'name': 'a%d' % i, 'default': None})
+                            elif kk == 'stringcref':
+                                ps.append({'kind': 'stringcref', 'src': 'const std::string &', 'db': 'char const *', 'name': 'a%d' % i, 'default': None})
                             else:
                                 ps.append({'kind': 'objcref', 'src': 'const %s &' % cc, 'db': '%s const *' % cc, 'cls': cc, 'name': 'a%d' % i, 'default': None})
                         c['methods'].append({'name': nm, 'params': ps, 'ret': {'kind': 'i64', 'src': 'long long'}, 'static': False, 'const': False, 'virtual': False, 'tag': len(sh) * 7 + len(c['methods'])})
@@ -131,6 +137,13 @@ class Lib:
                     if m['virtual']:
                         c['polymorphic'] = True
                     c['methods'].append(m)
+            # overriders: a virtual method of a direct base, same signature, other body
+            for x in bases:
+                bc = [q for q in self.classes if q['name'] == x['name']][0]
+                for bm in bc['methods']:
+                    if bm['virtual'] and rng.random() < 0.9 and not any(q['name'] == bm['name'] for q in c['methods']) and bm['ret']['kind'] not in ('objself', 'objselfptr', 'objval'):
+                        c['methods'].append(dict(bm, tag=bm['tag'] + 1000, overrides=bc['name']))
+                        c['polymorphic'] = True
             self.classes.append(c)
             names.append(name)
         for k in range(rng.randrange(1, 4)):
